@@ -8,6 +8,7 @@
 From Coq Require Import ZArith QArith List Bool Permutation Arith.
 From VL Require Import Prelude.Sx Prelude.PyDict Prelude.GDict Model.GetNBest Model.HighestAverages Model.Condorcet Model.Convert
      Proofs.GetNBest_proofs Proofs.QOrd Proofs.Order_proofs Proofs.Convert_proofs Proofs.HA_proofs Proofs.Divisor_proofs Proofs.HAPerm_proofs Proofs.HARename_proofs.
+From VL Require Import Model.Quota Model.QuotaDistributor Proofs.QDOrder_proofs.
 Import ListNotations.
 Close Scope Q_scope.
 Close Scope Z_scope.
@@ -82,6 +83,47 @@ Example C10_example :
   get_n_best Qle_bool [(3%positive, 14#4); (1%positive, 5#1); (2%positive, 7#2)]%Q 2 = [Cand 1%positive; TieR [3%positive; 2%positive]].
 Proof. vm_compute. split; reflexivity. Qed.
 
+(* ---- the quota family (QuotaDistributor.evaluate with its recursive cap branch and _subtract_overaward, and
+   LargestRemainder.evaluate): whatever the insertion order of the votes, of the previous gains and of the caps, the
+   two evaluations end alike ([qd_obs] / [lr_obs]) - the same error, or two result dictionaries in which every
+   candidate has the same seats ([kdget]; the candidate-keyed entries are permutations of each other, distinct
+   keys) and the tie keys correspond one to one with the same members (as sets) and the same seats.
+   [quota_ext]: the quota function does not distinguish equal rationals (every library quota: C10_quota_fn_ext). *)
+Theorem C10_quota_distributor_order : forall (quota : Q -> Z -> Q) (accept_equal : bool) (pol : policy)
+    (votes votes' : list (C * Q)) (n : Z) (prev prev' caps caps' : list (C * Z)),
+  quota_ext quota -> NoDup (map fst votes) -> Permutation votes votes' ->
+  NoDup (map fst prev) -> Permutation prev prev' -> (forall c, dget caps' c = dget caps c) ->
+  qd_obs (qd_evaluate quota accept_equal pol votes n prev caps) (qd_evaluate quota accept_equal pol votes' n prev' caps').
+Proof.
+  intros quota ae pol votes votes' n prev prev' caps caps' Hq Hv Hvp Hp Hpp Hc.
+  exact (qd_rel_obs _ _ (qd_evaluate_perm quota ae pol Hq votes votes' n prev prev' caps caps' Hv Hvp Hp Hpp Hc)).
+Qed.
+
+Theorem C10_largest_remainder_order : forall (quota : Q -> Z -> Q) (accept_equal : bool) (pol : policy)
+    (votes votes' : list (C * Q)) (n : Z) (prev prev' caps caps' : list (C * Z)),
+  quota_ext quota -> NoDup (map fst votes) -> Permutation votes votes' ->
+  NoDup (map fst prev) -> Permutation prev prev' -> (forall c, dget caps' c = dget caps c) ->
+  lr_obs (lr_evaluate quota accept_equal pol votes n prev caps) (lr_evaluate quota accept_equal pol votes' n prev' caps').
+Proof.
+  intros quota ae pol votes votes' n prev prev' caps caps' Hq Hv Hvp Hp Hpp Hc.
+  exact (lr_rel_obs _ _ (lr_evaluate_perm quota ae pol Hq votes votes' n prev prev' caps caps' Hv Hvp Hp Hpp Hc)).
+Qed.
+
+Theorem C10_quota_fn_ext : forall qs, quota_ext (quota_fn qs).
+Proof. exact quota_fn_ext. Qed.
+
+(* non-vacuity: the over-award subtraction ends in a tie key, the remainder stage in a tie; the orders differ *)
+Example C10_quota_example :
+  qd_evaluate (quota_fn (QNamed 7)) true PSubtract [(1%positive, 30#1); (2%positive, 30#1); (3%positive, 7#1)]%Q 3 [] []
+    = QD_ok [(K 1%positive, 1%Z); (K 2%positive, 1%Z); (KT [1%positive; 2%positive], 1%Z)] /\
+  qd_evaluate (quota_fn (QNamed 7)) true PSubtract [(3%positive, 7#1); (2%positive, 30#1); (1%positive, 30#1)]%Q 3 [] []
+    = QD_ok [(K 2%positive, 1%Z); (K 1%positive, 1%Z); (KT [2%positive; 1%positive], 1%Z)] /\
+  lr_evaluate (quota_fn (QNamed 1)) true PSubtract [(1%positive, 30#1); (2%positive, 20#1); (3%positive, 7#1); (4%positive, 7#1)]%Q 4 [] []
+    = LR_ok [(K 1%positive, 2%Z); (K 2%positive, 1%Z); (KT [3%positive; 4%positive], 1%Z)] /\
+  lr_evaluate (quota_fn (QNamed 1)) true PSubtract [(4%positive, 7#1); (3%positive, 7#1); (2%positive, 20#1); (1%positive, 30#1)]%Q 4 [] []
+    = LR_ok [(K 2%positive, 1%Z); (K 1%positive, 2%Z); (KT [4%positive; 3%positive], 1%Z)].
+Proof. vm_compute. repeat split; reflexivity. Qed.
+
 Print Assumptions C10_count_characterisation.
 Print Assumptions C10_order.
 Print Assumptions C10_symmetric.
@@ -89,3 +131,6 @@ Print Assumptions C10_rename.
 Print Assumptions C10_ballot_order.
 Print Assumptions C10_highest_averages_order.
 Print Assumptions C10_highest_averages_rename.
+Print Assumptions C10_quota_distributor_order.
+Print Assumptions C10_largest_remainder_order.
+Print Assumptions C10_quota_fn_ext.
